@@ -316,7 +316,7 @@ class C09(Prop):
             # IVP solvers at ivp_rtol=1e-9 / atol=1e-11: local errors accumulate over the ~4n local solves of a step
             tol = 3e-4 * max(1.0, t) * len(dts) * nrm
         if s["kind"] in ("tdvp_vmf", "tdvp_mu_vmf"):
-            tol = 2e-6 * max(1.0, t) * len(dts) * nrm
+            tol = 2e-7 * max(1.0, t) * len(dts) * nrm
         if s["kind"] in ("tdvp_ps", "tdvp_ps2") and not ps_is_exact(mps, s["kind"]):
             # the projector-splitting schemes are second-order integrators: even when the bond dimensions hold the state,
             # the left/right bases of an interior site are complete only on the smaller side, so a step carries a
@@ -362,7 +362,7 @@ class C09(Prop):
             else:
                 ref = apply_ref(-1j * dt, ref)
                 if s["kind"] in ("tdvp_vmf", "tdvp_mu_vmf"):
-                    tol += 2e-6 * nrm
+                    tol += 2e-7 * nrm
                 elif s.get("solver") in ("RK45", "RK23"):
                     tol += 3e-4 * nrm
                 else:
